@@ -441,5 +441,5 @@ def selftest(repo: Repo):
         v("lt-bool-after-num", P, "    if isinstance(left, bool) or isinstance(right, bool):\n        return False\n\n", "", "C12-KINDS"),
         v("lt-no-typeerror", P, "    raise LiquidTypeError(\n        f\"'<' and '>' are not supported between '{left.__class__.__name__}' \"\n        f\"and '{right.__class__.__name__}'\",\n        token=token,\n    )\n\n\ndef _contains", "    return False\n\n\ndef _contains", "C12-TYPEERR"),
         v("if-condition-primitive", "liquid/builtin/tags/if_tag.py", "        condition = BooleanExpression.parse(self.env, tokens)", "        condition = parse_primitive(self.env, tokens)", "C12-TRUTHY"),
-        v("case-uses-truthiness", "liquid/builtin/tags/cycle_tag.py", "        if self.group:\n            _group = self.group.evaluate(context)\n            group_name = \"__UNDEFINED\" if is_undefined(_group) else str(_group)\n        else:\n            group_name = \"\"\n\n        args = [arg.evaluate(context) for arg in self.args]", "        if self.group and self.group.evaluate(context):\n            _group = self.group.evaluate(context)\n            group_name = \"__UNDEFINED\" if is_undefined(_group) else str(_group)\n        else:\n            group_name = \"\"\n\n        args = [arg.evaluate(context) for arg in self.args]", "C12-TRUTHY"),
+        v("case-uses-truthiness", "liquid/builtin/tags/cycle_tag.py", "        if self.group:\n            _group = self.group.evaluate(context)\n            group_name = \"__UNDEFINED\" if is_undefined(_group) else to_str(_group)\n        else:\n            group_name = \"\"\n\n        args = [arg.evaluate(context) for arg in self.args]", "        if self.group and self.group.evaluate(context):\n            _group = self.group.evaluate(context)\n            group_name = \"__UNDEFINED\" if is_undefined(_group) else to_str(_group)\n        else:\n            group_name = \"\"\n\n        args = [arg.evaluate(context) for arg in self.args]", "C12-TRUTHY"),
     ]
